@@ -221,6 +221,64 @@ def build(tier, repo):
         if nm not in seen:
             r2.violation("misc.%s:switched" % nm, "src/python/misc.py", "kernel %s is no longer switched on use_C" % nm, "if use_C: %s = misc_solvers.%s else: def %s" % (nm, nm, nm), "absent")
 
+    r9 = chk.rule("C08-R9", "every argument of a kernel reaches its computation: compiled kernels read each parsed variable before overwriting it; "
+                            "Python kernels read each of their parameters",
+                  "offsets / mnl / flags address the blocks they were given for")
+    from .. import cwrap_rules as cw
+    kfns = [fn for _, fn in cf.method_table(c).get("misc_solvers_functions", []) if fn in c.funcs]
+    cw.parse_target_rule(r9, c, kfns)
+    for q, fn in m.funcs.items():
+        if "." in q or q.startswith("_"):
+            continue
+        params = [a for a in pf.arg_names(fn)]
+        loads = {x.id for x in ast.walk(fn) if isinstance(x, ast.Name) and isinstance(x.ctx, ast.Load)}
+        for a in params:
+            key = "misc.%s:parameter %s is read" % (q, a)
+            if a in loads:
+                r9.ok(key, m.where(fn, fn))
+            else:
+                r9.violation(key, m.where(fn, fn), "parameter `%s` of misc.%s is accepted and never used: the caller's value has no effect" % (a, q),
+                             "a read of %s" % a, "no use")
+    r9.require(60)
+
+    r10 = chk.rule("C08-R10", "if/else arms that apply an operation resp. its inverse (tbsv/tbmv, trsv/trmv, trsm/trmm) address the same block with the same arguments",
+                   "scale2 with inverse='I' undoes inverse='N' on every entry of the block")
+    INV = {frozenset(("dtbsv_", "dtbmv_")), frozenset(("dtrsv_", "dtrmv_")), frozenset(("dtrsm_", "dtrmm_")),
+           frozenset(("ztbsv_", "ztbmv_")), frozenset(("ztrsv_", "ztrmv_")), frozenset(("ztrsm_", "ztrmm_"))}
+    ext_ = set(c.externs)
+
+    def _single_call(st):
+        if st is None:
+            return None
+        if st.get("k") == "CompoundStmt":
+            kids = [k_ for k_ in st.get("c", []) if k_.get("k") not in ("NullStmt",)]
+            calls_ = [k_ for k_ in kids if k_.get("k") == "CallExpr"]
+            if len(calls_) != 1:
+                return None
+            st = calls_[0]
+        if st.get("k") == "CallExpr" and cf.callee_name(st) in ext_ and not st.get("bm") and st.get("b") is not None:
+            span = c.paren_after(st["b"])
+            if span:
+                return cf.callee_name(st), [re.sub(r"\s+", "", a_) for a_ in cf.split_top(c.text(span[0] + 1, span[1]))], st
+        return None
+    for cfn in c.order:
+        nth_ = 0
+        for st in cf.walk(c.funcs[cfn]):
+            if st.get("k") == "IfStmt" and len(st.get("c", [])) == 3:
+                a_, b_ = _single_call(st["c"][1]), _single_call(st["c"][2])
+                if not a_ or not b_ or frozenset((a_[0], b_[0])) not in INV:
+                    continue
+                nth_ += 1
+                key = "%s:#%d %s/%s arms@%s" % (cfn, nth_, a_[0], b_[0], cx.unparse(cm.Simulator(c, cfn).cond_of(st) or ("id", "?"))[:30])
+                where = "src/C/misc_solvers.c:%s:%d" % (cfn, c.line_of(st["b"]))
+                if a_[1] == b_[1]:
+                    r10.ok(key, where, "identical argument lists")
+                else:
+                    diff = [(x_, y_) for x_, y_ in zip(a_[1], b_[1]) if x_ != y_][:3]
+                    r10.violation(key, where, "the operation and its inverse are applied to different parts of the block: %s" % diff,
+                                  "identical arguments", diff)
+    r10.require(2)
+
     r3 = chk.rule("C08-R3", "block-offset discipline in the Python kernels", "kernels touch exactly the addressed blocks")
     fns = []
     for sw in switches:
